@@ -4,7 +4,6 @@ import (
 	"bytes"
 	"fmt"
 	"io"
-	"strings"
 
 	"github.com/tdewolff/parse/v2"
 	"github.com/tdewolff/parse/v2/js"
@@ -215,6 +214,10 @@ func prattImpl(c Case) []int64 {
 		if f.Init == nil {
 			return []int64{0, 0}
 		}
+		if vd, ok := f.Init.(*js.VarDecl); ok && len(vd.List) == 0 {
+			// `for(;;)`: the parser stores an empty var declaration (for hoisting) where there is no initialiser
+			return []int64{0, 0}
+		}
 		out := []int64{0, 1}
 		out = append(out, c03EncBytes([]byte(f.Init.String()))...)
 		return append(out, c03EncExpr(f.Init)...)
@@ -315,9 +318,6 @@ func c03HasArrayLiteral(ts []c03Jtok) bool {
 		p := ts[i-1].ty
 		if !(js.IsIdentifier(p) || js.IsNumeric(p) || p == js.CloseParenToken || p == js.CloseBracketToken ||
 			p == js.StringToken || p == js.ThisToken || p == js.NullToken || p == js.TrueToken || p == js.FalseToken) {
-			return true
-		}
-		if t.lt && false {
 			return true
 		}
 	}
@@ -575,5 +575,3 @@ func init() {
 		Oracles: []*Oracle{{Name: "c03-grammar-generator", Run: c03Oracle}},
 	}
 }
-
-var _ = strings.Join
